@@ -220,7 +220,15 @@ def evaluate(chk, binary, cases, label):
         viol, notes = judge(case, o)
         for n in notes[:1]:
             chk.note(n + " [%s]" % json.dumps(case["a"]))
-        if viol:
+        if viol and all(vlib.match_known(chk.known, facts_of(case, o, *x)) is not None for x in viol):
+            # every finding of this case is a listed known finding: no need to re-run it with a larger budget
+            for x in viol[:2]:
+                f = facts_of(case, o, *x)
+                key = "%s/v%s/%s" % (x[0], f["ver"], f.get("dimension") or "")
+                classes = chk.parts.setdefault("violation_classes", {})
+                classes[key] = classes.get(key, 0) + 1
+                chk.violation(f)
+        elif viol:
             flagged.append(case)
     # anything that involves a failure may be a timing artefact of a loaded machine: re-run twice with a larger budget
     confirmed = {}
